@@ -99,6 +99,44 @@ def additivity(ctx, rng):
     return None, None
 
 
+def reuse_case(ctx, rng):
+    """the stiffness matrix belongs to the laminate the panel has NOW: a Panel whose stack / ply data are edited (in place or by
+    re-assignment) between two evaluations gives the matrix of a freshly defined panel with the edited data"""
+    case = pc.gen_panel_case(rng, models=('Plate', 'CPanel'), max_mn=3, y12=False)
+    if len(case['stack']) < 2:
+        case['stack'] = list(case['stack']) + [30.]
+    p = pc.make_panel(case)
+    pc.quiet(p.calc_k0, silent=True)
+    edit = rng.choice(['stack item', 'stack reverse', 'plyt', 'laminaprop', 'stack item'])
+    c2 = dict(case, stack=list(case['stack']))
+    if edit == 'stack item':
+        k = rng.randrange(len(c2['stack']))
+        c2['stack'][k] = c2['stack'][k] + rng.choice([15., 30., -40.])
+        p.stack[k] = c2['stack'][k]                      # in-place edit of the caller's list
+    elif edit == 'stack reverse':
+        c2['stack'] = c2['stack'][::-1]
+        c2['stack'][0] += 10.
+        p.stack.reverse()
+        p.stack[0] += 10.
+    elif edit == 'plyt':
+        c2['plyt'] = case['plyt'] * 1.5
+        p.plyt = c2['plyt']
+        p.plyts = []
+    else:
+        lp = list(case['laminaprop'])
+        lp[0] *= 0.7
+        c2['laminaprop'] = tuple(lp)
+        p.laminaprop = tuple(lp)
+        p.laminaprops = []
+    got = pc.quiet(p.calc_k0, silent=True).toarray()
+    want = pc.quiet(pc.make_panel(c2).calc_k0, silent=True).toarray()
+    d = pc.rel_diff(got, want)
+    if d > 1e-12:
+        return dict(case=case, edit=edit, edited=c2), ('calc_k0 after editing the panel\'s %s differs from the matrix of a freshly defined panel with '
+                                                        'the edited data: rel %.3e (stale laminate)' % (edit, d))
+    return None, None
+
+
 def correspondence(ctx):
     ir = pc.translated(ctx)
     rng = ctx.rng
@@ -130,6 +168,12 @@ def correspondence(ctx):
         ctx.evaluations += 1
         if bad:
             ctx.violation('C02 fails on the implementation: ' + bad, dict(case=c, additivity=True))
+            return
+    for t in range(ctx.scale(10, 60)):
+        c, bad = reuse_case(ctx, rng)
+        ctx.evaluations += 1
+        if bad:
+            ctx.violation('C02 fails on the implementation: ' + bad, dict(case=c, reuse=True))
             return
     ctx.cov['input_distribution'] = dist
     ctx.cov['programs'] = 8
